@@ -267,6 +267,12 @@ def _edge_stats(g):
             s = g.states[sk]
             if isinstance(s, list) and len(s) == 20:
                 inc("other:%s:%s" % (op["who"], "queue-partial" if s[5] and s[7] < s[6] else "queue-kept-empty" if s[5] else "no-queue"))
+        if n == "sock" and op.get("coalesced"):
+            inc("start-coalesced")
+        if n == "sock" and op.get("boundary"):
+            inc("start-boundary")
+        if n == "finish" and op.get("carry", 0) > 0:
+            inc("start-carry")
         if n == "glitch":
             inc("glitch:" + op["kind"])
         if n == "read" and op.get("glitch", "none") != "none":
@@ -301,6 +307,7 @@ LAYER_NEED = {
                 "read-glitch:temperr", "glitch:eofdata"],
     "mux": ["op:open", "op:write", "op:closewrite", "op:read", "read-after-own-closewrite", "eof"],
     "muxg": ["op:open", "op:write", "op:read", "glitch:dataerr", "glitch:temperr", "glitch:shortwrite"],
+    "start": ["op:write", "op:finish", "op:read", "start-coalesced", "start-boundary", "start-carry"],
     "lazy": ["lazy-flush-by:cwrite", "lazy-flush-by:creadbegin", "lazy-flush-by:cclosewrite", "op:swrite", "op:sread",
              "read-after-own-closewrite", "eof"],
 }
@@ -322,6 +329,9 @@ HARNESSES = {
     "psk": ("./p2p/net/pnet", "^TestVerifC02Psk$"),
     "sampled": ("./p2p/transport/tcpreuse/internal/sampledconn", "^TestVerifC02Sampled$"),
     "mux": ("./p2p/muxer/yamux", "^TestVerifC02Mux$"),
+    "noise-start": ("./p2p/security/noise", "^TestVerifC02NoiseStart$"),
+    "tls-start": ("./p2p/security/tls", "^TestVerifC02TLSStart$"),
+    "upgrade-start": ("./p2p/net/upgrader", "^TestVerifC02UpgradeStart$"),
     "lazy": ("./p2p/host/basic", "^TestVerifC02LazyMS$"),
     "stack": ("./p2p/host/basic", "^TestVerifC02Stack$"),
 }
@@ -368,8 +378,8 @@ def _crash_verdict(key, log1, log2):
 
 def _prebuild(args):
     ctx, key = args
-    if key == "stack":
-        return key      # same package as "lazy"
+    if key in ("stack", "noise-start", "tls-start"):
+        return key      # same package as another harness
     pkg, _ = HARNESSES[key]
     rc, out = goenv.go_test(_own(ctx, "b-" + key), pkg, "^$", timeout=1200)
     if rc != 0:
@@ -393,6 +403,9 @@ def run(ctx):
         "psk": dict(base, VERIF_C02_ROUNDS=rounds),
         "sampled": dict(base, VERIF_C02_ROUNDS=rounds),
         "mux": dict(base, VERIF_C02_ROUNDS=2 if thorough else 1, VERIF_C02_MUX_SHARE=1 if thorough else 2),
+        "noise-start": dict(base, VERIF_C02_ROUNDS=rounds),
+        "tls-start": dict(base, VERIF_C02_ROUNDS=rounds),
+        "upgrade-start": dict(base, VERIF_C02_ROUNDS=rounds),
         "lazy": dict(base, VERIF_C02_ROUNDS=rounds),
         "stack": dict(base, VERIF_C02_ROUNDS=2 if thorough else 1, VERIF_C02_STACK_SHARE=1 if thorough else 2),
     }
@@ -466,7 +479,12 @@ def run(ctx):
             # be recovered by the harness): decide by re-running once
             key2, res2 = _harness((ctx, k, beh_dir, envs[k]))
             if "crash" in res2:
-                res = _crash_verdict(k, res["crash"], res2["crash"])
+                try:
+                    res = _crash_verdict(k, res["crash"], res2["crash"])
+                except MachineryError as e:
+                    # (no verdict from this harness; a violation found by another one still stands)
+                    machinery.append(str(e)[:3000])
+                    res = {"replayed": 1, "steps": 0, "distinct": 0, "samples": [], "extra": {}, "mismatches": []}
             else:
                 ctx.notes.append("harness %s crashed once and not again with the same seed" % k)
                 res = res2
